@@ -35,7 +35,10 @@
      (a) histories that are not drained: several operations per read (the kernel then coalesces differently
          under different masks - C11_kernel_twin is only up to kcollapse), reads that cut a burst, pairing
          through the delay queue across reads and the clock;
-     (b) the skip-repeats event queue (C16) between emitter and handler (hence "up to stutter" in C11_full);
+     (b) the skip-repeats event queue between emitter and handler is covered abstractly (C11_stutter_closure,
+         C11_handler_sequential: whatever repeats of the most recently queued event either queue drops, the
+         delivered streams are stutter-equal); the relation [skips] is not yet derived from the concurrent
+         SkipQueue model of C16 (its C16_drops_justified is the matching fact);
      (c) C11_transparent_sequential(_all) speak about [run_from] (Inotify.__init__, then per operation: kernel,
          one read of the whole queue, grouping, emission); per operation this is what Pipeline.prun delivers
          (C11_pipeline_tie_filtered), but the induction over a whole Pipeline history (idle buffer re-established
@@ -47,7 +50,7 @@ Require Import WD.Model.Fs WD.Model.Reader WD.Model.Contract.
 Require Import WD.Gen.MaskTableGen WD.Proofs.MaskTableProofs WD.Proofs.C11Proofs WD.Proofs.ContractProofs.
 Require Import WD.Proofs.C11KernelProofs WD.Proofs.C11ReaderProofs WD.Proofs.C11TwinProofs WD.Proofs.C11GroupProofs
                WD.Proofs.C11SeqProofs.
-Require Import WD.Model.Pipeline WD.Proofs.C11TieProofs WD.Proofs.C11FlatProofs.
+Require Import WD.Model.Pipeline WD.Proofs.C11TieProofs WD.Proofs.C11FlatProofs WD.Proofs.C11StutterProofs.
 
 (* The full property.  [events F full recursive h] = the events delivered to the handler of a watch
    with event filter F (None = no filter) over the operation history h; [paced] = the pacing condition
@@ -268,6 +271,26 @@ Theorem C11_reader_transparent_flat : forall C, c_recursive C = false -> c_root 
 Proof. exact reader_transparent_flat. Qed.
 Print Assumptions C11_reader_transparent_flat.
 
+(* The skip-repeats queue between emitter and handler: [skips None puts kept] = [kept] is [puts] minus some
+   events that are equal to the most recently queued one.  If the filtered watch queues the accepted part of what
+   the unfiltered watch queues, the handlers' streams are equal up to stutter, whatever either queue drops. *)
+Theorem C11_stutter_closure : forall F putsU keptU putsF keptF,
+  putsF = filter (fun e => accepts F (ev_cls e)) putsU -> skips None putsU keptU -> skips None putsF keptF ->
+  stutter_eq keptF (filter (fun e => accepts F (ev_cls e)) keptU).
+Proof. exact stutter_closure. Qed.
+Print Assumptions C11_stutter_closure.
+
+(* drained histories, at the handlers: C11_full's conclusion for the drained regime *)
+Theorem C11_handler_sequential : forall F C full,
+  c_mask C = WATCHDOG_ALL -> c_root C <> [] -> last_is_sep (c_root C) = false ->
+  forall w ops evsU, Forall op_ok ops ->
+    run_from None C full w ops = Some evsU ->
+    exists evsF, run_from F (with_mask C (kmask F (c_recursive C))) full w ops = Some evsF /\
+      forall keptU keptF, skips None evsU keptU -> skips None evsF keptF ->
+        stutter_eq keptF (filter (fun e => accepts F (ev_cls e)) keptU).
+Proof. exact handler_sequential. Qed.
+Print Assumptions C11_handler_sequential.
+
 (* [run_one (pc_filter P)] is what the Pipeline model delivers for AOp o; ARead (whole queue); ATick delay;
    AEmit ... from a state whose buffer is idle (C03's pipeline_tie, with the class filter kept). *)
 Theorem C11_pipeline_tie_filtered : forall P s o w1 k1 r1 evs,
@@ -423,4 +446,13 @@ Example C11_sequential_flat_nonvacuous :
     = Some [(FileOpened, ex_sl ex_R 97); (FileOpened, ex_sl ex_R 98)].
 Proof.
   split; [reflexivity|]. split; [repeat constructor|]. vm_compute. split; reflexivity.
+Qed.
+
+(* the skip relation: the second of two equal consecutive events may be dropped, a separated one may not *)
+Example C11_skips_nonvacuous :
+  let a := mk DirModified probe_root [] in let b := mk FileModified probe_entry [] in
+  skips None [a; a; b; a] [a; b; a] /\ collapse [a; a; b; a] = [a; b; a].
+Proof.
+  split; [|reflexivity].
+  apply sk_keep. apply sk_drop; [reflexivity|]. apply sk_keep. apply sk_keep. apply sk_nil.
 Qed.
